@@ -155,7 +155,41 @@ class Hist:
 
     # ------------------------------------------------------------------ operations
 
+    def others_snapshot(self, target) -> Dict[int, Any]:
+        """From-scratch metadata rendering + stored value + name of every characteristic but `target`."""
+        rig = self.rig
+        snap = {}
+        for key, acc, s, c in self.chars():
+            if c is target:
+                continue
+            try:
+                meta = ref.render_char(c, acc.iid_manager, False, rig.loader_names.get(id(c)))
+            except Exception as ex:  # noqa: BLE001
+                meta = {"unrenderable": type(ex).__name__}
+            snap[rig.num(c)] = (copy.deepcopy(meta), copy.deepcopy(c.value))
+        return snap
+
     def apply(self, op: dict):
+        k = op["op"]
+        if k in ("set_value", "client_write", "override", "display_name", "getter"):
+            target = self.rig.objs[op["obj"]]
+            before = self.others_snapshot(target)
+            self._apply(op)
+            after = self.others_snapshot(target)
+            for n, (meta, val) in before.items():
+                meta2, val2 = after.get(n, (None, None))
+                if not ref.same(meta, meta2) or not ref.same(val, val2):
+                    what = ref.first_difference(meta, meta2) or f"value {val!r} -> {val2!r}"
+                    self.fail(
+                        "C11:other-characteristic-changed",
+                        f"{k} addressed to characteristic #{op['obj']} changed the from-scratch rendering of "
+                        f"characteristic #{n}: {what} (before / after)",
+                    )
+                    break
+        else:
+            self._apply(op)
+
+    def _apply(self, op: dict):
         self.ops.append(op)
         rig = self.rig
         k = op["op"]
@@ -427,12 +461,29 @@ BOUNDARY_PROGRAMS = [
     ["read_one", "read_many", ("getter", "raise"), "read_many", "read_unknown", "read_all"],
     # an override whose re-validation raises TypeError after the properties were updated
     ["read_all_nv", "read_all", ("override_bad",), "read_all_nv", "read_all", "read_one"],
+    # same-typed characteristics (one loader): fill the caches, override exactly one instance, read the
+    # siblings, update a sibling's value, read again
+    ["siblings", "read_all", "read_all_nv", ("override",), "read_all", "read_all_nv", "read_sib", ("sib_set_value",),
+     "read_all", "read_sib", ("override",), ("sib_set_value",), "read_sib", "read_all"],
 ]
+
+
+def sibling_cfg(rng, pool) -> dict:
+    """The same shipped service on several bridged accessories and twice on one accessory."""
+    numeric_first = ["TemperatureSensor", "Lightbulb", "HumiditySensor", "Thermostat", "Fanv2", "LightSensor", "WindowCovering"]
+    name = rng.choice(numeric_first) if rng.random() < 0.7 else rng.choice(pool)["svc"]
+    row = next(r for r in pool if r["svc"] == name)
+    opt = [c for c in row["optional"] if rng.random() < 0.3][:2]
+    spec = {"svc": name, "opt": opt}
+    accs = [{"aid": None, "specs": [dict(spec)] + ([dict(spec)] if i == 0 and rng.random() < 0.5 else [])}
+            for i in range(rng.choice([2, 2, 3]))]
+    main = [dict(spec)] if rng.random() < 0.3 else []
+    return {"bridge": True, "mainAid": 1, "main": main, "accs": accs}
 
 
 def gen_history(ctx: Ctx, pool, program=None, n_ops: Optional[int] = None) -> Hist:
     rng = ctx.rng
-    cfg = random_cfg(rng, pool)
+    cfg = sibling_cfg(rng, pool) if (program is not None and "siblings" in program) or (program is None and rng.random() < 0.2) else random_cfg(rng, pool)
     h = Hist(cfg)
     rig = h.rig
     live = [(key, acc, s, c) for key, acc, s, c in h.chars()]
@@ -485,11 +536,29 @@ def gen_history(ctx: Ctx, pool, program=None, n_ops: Optional[int] = None) -> Hi
         if ("override_bad",) in program:
             numeric = [x for x in cands if x[3].properties["Format"] in ref.NUMERIC_FORMATS and not x[3].properties.get("ValidValues")]
             cands = numeric or cands
+        if "siblings" in program:
+            # a characteristic type that occurs at least twice outside the information service
+            by_type: Dict[str, list] = {}
+            for x in live:
+                if x[2] is not x[1].services[0]:
+                    by_type.setdefault(str(x[3].type_id), []).append(x)
+            multi = [v for v in by_type.values() if len(v) >= 2]
+            if multi:
+                group = rng.choice(multi)
+                cands = [group[rng.randrange(len(group))]]
         t = cands[rng.randrange(len(cands))]
         key, acc, s, c = t
         n = rig.num(c)
+        sibs = [x for x in live if x[3] is not c and x[3].type_id == c.type_id] or [t]
         for step in program:
-            if step == "read_all":
+            if step == "siblings":
+                continue
+            if step == "read_sib":
+                h.apply({"op": "read_chars", "ids": [pair_of(x) for x in sibs[:4]]})
+            elif step[0] == "sib_set_value":
+                sc = rng.choice(sibs)[3]
+                h.apply({"op": "set_value", "obj": rig.num(sc), "value": _other_value(rng, sc)})
+            elif step == "read_all":
                 h.apply({"op": "read_all", "incl": True, "via": rng.choice(["driver", "handler"])})
             elif step == "read_all_nv":
                 h.apply({"op": "read_all", "incl": False})
